@@ -27,6 +27,7 @@ func convTree(id int, vt string, base int) *Tree {
 	if vt == "string" {
 		opts = append(opts, &OptNode{Long: "choice", Kind: "scalar", VType: "string", Choices: []string{"a", "ab", "b c", "é"}},
 			&OptNode{Long: "choices", Kind: "slice", VType: "string", Choices: []string{"one"}},
+			&OptNode{Long: "level", Kind: "scalar", VType: "string", Choices: []string{"warn", "info", "debug", "error", "Info"}}, // declared out of order
 			&OptNode{Long: "mapchoice", Kind: "map", VType: "string", Choices: []string{"k:v", "k"}})
 	}
 	t := &Tree{ID: id, NsDelim: ".", EnvDelim: "_", Note: "conv " + vt + " base " + itoa(base)}
